@@ -18,29 +18,32 @@ from common import coq
 PID = "C27"
 GENS = ["c42", "c27"]       # C27 builds on the C42 model: both translators run first
 LEVEL_TEXT = ("Machine-checked proof (Coq, closed under the global context) that, on the model of SFTPFile over "
-              "BufferedFile over the server handle (with its __tell cache), every DISCIPLINED program -- read(n)/"
-              "read()/readline(size)/tell with an empty write buffer, write with an empty read buffer, seek and "
-              "flush anywhere, truncate as the last call -- returns exactly the values of the reference "
-              "binary-file semantics (Lib/FileSpec.v) and ends with the same contents, for every mode "
-              "(r, r+, w, w+, a, a+, x), every buffer size (unbuffered, line-buffered, block-buffered incl. "
-              "partial flushes and 32768-byte request splitting) and existing or missing files "
-              "(C27_refines_partial, plus C27_refines_read_fragment under a static condition); readlines and "
-              "mid-program truncate are NOT proved and are covered by the three-way differential run (model == "
-              "real SFTP == local file) every run, which also checks that the generator's disciplined programs "
-              "satisfy the theorem's guard; seven classes of undisciplined programs on which paramiko diverges "
-              "from a local file are proved as _refuted witnesses on the model, reproduced on the real code and "
-              "recorded as known findings.")
-LEVEL_NOTE = ("Partial: the full property is false for the code as it is (known findings); refinement is proved on "
-              "the disciplined fragment only, with the guard evaluated on the model state and a fuel-sufficiency "
-              "conjunct (model artefact); readlines, mid-program truncate and close-then-use are checked by "
-              "correspondence + oracle only.  Mutators returning None in paramiko but a count in Python are "
-              "compared by effect only; Python 'x' is compared with paramiko 'wx'; for a/a+ the reference is the "
-              "unbuffered local file.  The Python file object behind the server handle is not modelled: programs "
-              "that read after a truncate are excluded from the model correspondence.  Constants (buffer size, "
-              "flag values, MAX_REQUEST_SIZE, open-mode and pflag tables) are regenerated from the source every "
-              "run (gen/c27.py, gen/c42.py) and tied to the model by proved equalities.  Trusted: Coq kernel + "
-              "vm_compute; hand-written models C27.v / C42.v / FileSpec.v validated by the differential run.")
-TECHNIQUE = "Coq refinement proof (disciplined fragment, simulation invariant) + _refuted witnesses + source-derived constants + vm_compute three-way differential"
+              "BufferedFile over the server handle (with its __tell cache), EVERY program that shows none of the "
+              "seven registered known-finding shapes returns exactly the values of the reference binary-file "
+              "semantics (Lib/FileSpec.v) and ends with the same contents (C27_refines_outside_findings): all op "
+              "kinds -- read(n), read(), readline(size), readlines, write, seek with the three whences incl. "
+              "refused negative targets, tell, truncate, flush -- every mode (r, r+, w, w+, a, a+, x), every "
+              "buffer size (unbuffered, line-buffered, block-buffered, 32768-byte request splitting), existing "
+              "or missing file.  The shapes are a boolean predicate on the state each call meets "
+              "(no_finding_shape / first_finding); C27_shape_partition shows every program is in exactly one of "
+              "the eight classes, and each of the seven finding classes has a _refuted witness on the model "
+              "(C27_refuted_shapes ties witness to class), reproduced on the real code on every run and recorded "
+              "as a known finding.  The differential run (model == real SFTP == local file) generates programs "
+              "of both kinds, recognises the class on the real object and checks it against the model's "
+              "first_finding for every program.")
+LEVEL_NOTE = ("The unrestricted property is false for the code as it is (seven known findings); the theorem covers "
+              "exactly the complement of their shapes.  A finding shape is a superset of the actual divergences "
+              "(e.g. any call after truncate counts, although flush after truncate is harmless).  The theorem "
+              "carries the hypothesis fuel_suffices (the executable model's loop bound is large enough -- a model "
+              "artefact, evaluated on every generated program by the run).  Mutators returning None in paramiko "
+              "but a count in Python are compared by effect only; Python 'x' is compared with paramiko 'wx'; for "
+              "a/a+ the reference is the unbuffered local file.  The Python file object behind the server handle "
+              "is not modelled: programs that read after a truncate are excluded from the model-vs-real "
+              "comparison (they are in the stale-after-truncate class).  Constants (buffer size, flag values, "
+              "MAX_REQUEST_SIZE, open-mode and pflag tables) are regenerated from the source every run and tied "
+              "to the model by proved equalities.  Trusted: Coq kernel + vm_compute; hand-written models C27.v / "
+              "C42.v / FileSpec.v validated by the differential run.")
+TECHNIQUE = "Coq refinement proof outside the finding shapes (simulation invariant) + partition lemma + _refuted witnesses + source-derived constants + vm_compute three-way differential incl. shape classification"
 
 MODES = ["r", "r+", "w", "w+", "a", "a+", "x"]
 MODE_CODE = {"r": 0, "r+": 1, "w": 2, "w+": 3, "a": 4, "a+": 5, "x": 6, "xbare": 7}
@@ -253,7 +256,7 @@ def discipline(ops, mode):
 def gen_case(rng, disciplined):
     mode = rng.choice(MODES) if disciplined or rng.random() < 0.9 else "xbare"
     bufsize = rng.choice(BUFSIZES) if rng.random() < 0.8 else rng.randrange(2, 65537)
-    exists = rng.random() < 0.85
+    exists = rng.random() < (0.1 if mode in ("x", "xbare") else 0.95 if mode in ("r", "r+") else 0.85)
     alphabet = rng.choice([b"xy\n", b"xyz\n\n", bytes(range(256))])
     init = bytes(rng.choice(alphabet) for _ in range(rng.choice([0, 1, 3, 10, 20, rng.randrange(0, 60)])))
     n = rng.choice([1, 2, 3, 5, 8, 12, 20, 40])
@@ -314,6 +317,49 @@ def trim_negative_seeks(loop, case, disciplined):
 
 
 # ------------------------------------------------------------------ classification
+WITNESSES = [
+    ["r+", 8, True, b"\n\ny\ny", [("FWrite", b"a\naa"), ("FReadline", None)], False],
+    ["w", 65536, True, b"", [("FWrite", b"abc"), ("FTell",)], False],
+    ["r+", 0, True, b"a\nb\nc", [("FReadline", None), ("FWrite", b"X")], False],
+    ["w", 64, True, b"", [("FWrite", b"ab"), ("FTruncate", 0)], False],
+    ["r", 0, True, b"abc", [("FTruncate", 1)], False],
+    ["a", 0, True, b"", [("FWrite", b"ab"), ("FTruncate", 0), ("FWrite", b"c"), ("FTell",)], False],
+    ["xbare", 0, False, b"", [("FWrite", b"a")], False],
+]
+
+SHAPES = ["none", "bare-x-mode-not-writable", "read-with-unflushed-write-buffer",
+          "tell-ignores-unflushed-write-buffer", "write-with-nonempty-read-buffer",
+          "truncate-ignores-unflushed-write-buffer", "truncate-allowed-on-read-only-file",
+          "state-stale-after-truncate"]
+
+
+def shape_code(case, pre):
+    """first known-finding shape of the whole program, recognised on the state of the REAL object before
+    each call (0 = none); the same predicate as first_finding / no_finding_shape in coq/Model/C27.v"""
+    mode, ops = case[0], case[4]
+    if mode == "xbare":
+        return 1
+    truncated = False
+    for i, o in enumerate(ops):
+        rb, wb = pre[i]
+        k = o[0]
+        if truncated:
+            return 7
+        if k in READ_OPS and wb > 0:
+            return 2
+        if k == "FTell" and wb > 0:
+            return 3
+        if k == "FWrite" and rb > 0:
+            return 4
+        if k == "FTruncate":
+            if mode == "r":
+                return 6
+            if wb > 0:
+                return 5
+            truncated = True
+    return 0
+
+
 def first_guard(case, local_res, sftp_res, pre, upto):
     mode, ops = case[0], case[4]
     if mode == "xbare":
@@ -411,7 +457,8 @@ def evaluate(ctx, loop, case, disciplined, want_model=True):
         if diff is not None or scont != lcont:
             key = first_guard(case, lres, sres, pre, max(diff, 0) if diff is not None else len(case[4]) - 1)
             if key is None:
-                key = "refinement:" + ("disciplined" if disciplined else "undisciplined-unclassified")
+                key = "refinement:" + ("no-finding-shape" if shape_code(case, pre) == 0
+                                       else "before-the-first-finding-shape")
             ctx.fail(key, KEYS.get(key, what) if key in KEYS else what, case=desc,
                      expected={"results": lres, "content": lcont}, observed={"results": sres, "content": scont})
         # programs outside the model: reads after truncate (server-side file-object buffer), negative positions
@@ -423,7 +470,8 @@ def evaluate(ctx, loop, case, disciplined, want_model=True):
                 seen_trunc = True
     mc = (coq_case27(case), flat(sres, scont)) if (want_model and model_ok) else None
     rc = (coq_case_ref(case), flat(lres, lcont)) if want_model else None
-    return mc, rc
+    shape = shape_code(case, pre) if sres is not None else None
+    return mc, rc, shape
 
 
 def big_cases(ctx, loop, rng, n):
@@ -456,17 +504,19 @@ def run(ctx):
                     "file.py, sftp_handle.py, sftp_client.open, sftp_server._convert_pflags and to CPython's "
                     "file objects by this three-way differential run",
                     "tests/_stub_sftp.py (StubSFTPServer) provides the served file objects",
-                    "write/flush/truncate/readlines/close are not covered by a theorem (C27_refines_partial)"]
+                    "close-then-use and programs inside the seven finding shapes are outside the positive theorem"]
     ctx.assumptions += ["mutators that return None in paramiko but a count in Python are compared by effect only",
                         "Python mode 'x' is compared with paramiko mode 'wx'"]
     ctx.prove(GENS)
     loop = Loop(ctx.repo)
     try:
-        mcases, rcases, kept, gcases = [], [], [], []
-        for j in range(360 * scale):
-            disciplined = (j % 3 != 0)
-            case = gen_case(rng, disciplined)
-            mc, rc = evaluate(ctx, loop, case, disciplined)
+        mcases, rcases, kept, scases = [], [], [], []
+        for j in range(-len(WITNESSES), 360 * scale):
+            disciplined = (j >= 0 and j % 3 != 0)
+            # the seven _refuted witnesses of Props/C27_props.v run first, so that every known-finding class
+            # is replayed on the real code on every run
+            case = list(WITNESSES[j + len(WITNESSES)]) if j < 0 else gen_case(rng, disciplined)
+            mc, rc, shape = evaluate(ctx, loop, case, disciplined)
             nontrivial = len(case[4]) > 0
             ctx.count(case, nontrivial=nontrivial,
                       kind="%s/%s" % (case[0], "disciplined" if disciplined else "arbitrary"))
@@ -475,9 +525,14 @@ def run(ctx):
             if mc is not None:
                 mcases.append(mc)
                 kept.append(case)
-            if disciplined and case[0] != "xbare" and all(o[0] != "FReadlines" for o in case[4]):
-                # the proved fragment (C27_refines_partial): the model's own guard must accept the program
-                gcases.append(((mc or (coq_case27(case), None))[0], case))
+            # which class of the partition (C27_shape_partition) is the program in?  recognised on the real object
+            # here and by first_finding on the model below; both classes are generated and compared
+            scases.append((coq_case27(case), [-9] if shape is None else [shape, 1], case))
+            name = "open-raises" if shape is None else SHAPES[shape]
+            ctx.dist["shape-" + name] = ctx.dist.get("shape-" + name, 0) + 1
+            if disciplined and shape not in (None, 0):
+                ctx.disagree("the generator's discipline no longer keeps programs outside the finding shapes",
+                             case=case_desc(case), impl=SHAPES[shape])
             if rc is not None:
                 rcases.append((rc, case))
         big_cases(ctx, loop, rng, 8 * scale)
@@ -499,16 +554,11 @@ def run(ctx):
     for i in bad[:3]:
         ctx.disagree("local Python file differs from the reference model Lib/FileSpec.v",
                      case=case_desc(rcases[i][1]), impl=rcases[i][0][1])
-    gexp = []
-    for txt, case in gcases:
-        opens = run_opens(case)
-        gexp.append((txt, [1] if opens else [-9]))
-    bad = safe("run_c27_guard", "(Z * Z * (bool * list Z) * list fop)", gexp,
+    bad = safe("run_c27_shape", "(Z * Z * (bool * list Z) * list fop)", [(t, e) for t, e, _ in scases],
                "From PV Require Import C42 FileSpec C27.")
-    ctx.dist["in-proved-fragment"] = len(gexp) - len(bad)
     for i in bad[:3]:
-        ctx.disagree("a disciplined program (no readlines) falls outside the fragment of C27_refines_partial "
-                     "(model guard rejects it)", case=case_desc(gcases[i][1]))
+        ctx.disagree("finding shape recognised on the real object differs from first_finding / fuel_suffices on "
+                     "the model", case=case_desc(scases[i][2]), impl=scases[i][1])
     if kept:
         ctx.sample({"case": case_desc(kept[0]), "sftp": mcases[0][1]})
         ctx.sample({"case": case_desc(kept[-1]), "sftp": mcases[-1][1]})
